@@ -49,6 +49,7 @@ func (w *World) newEngine(kind string) (storage.KvStorage, bool, error) {
 		}
 		w.tmpDir = dir
 		w.closers = append(w.closers, func() { st.Close(); os.RemoveAll(dir) })
+		w.engineDirs = append(w.engineDirs, dir)
 		return st, false, nil
 	case "tikv":
 		rpcClient, cluster, pdClient, err := testutils.NewMockTiKV("", nil)
@@ -84,6 +85,16 @@ func (w *World) CloseEngines() {
 		c()
 	}
 	w.closers = nil
+}
+
+// AbandonEngines removes the engines' directories without closing them: for free-running runs,
+// whose backend loops (retry, sequencer) cannot be stopped and would use a closed engine. The
+// process ends right after.
+func (w *World) AbandonEngines() {
+	for _, d := range w.engineDirs {
+		os.RemoveAll(d)
+	}
+	w.closers, w.engineDirs = nil, nil
 }
 
 // batchHoldsLock reports whether the engine keeps a sync.Mutex field named "mu" locked while a
